@@ -1,10 +1,14 @@
 """Translator plug-in for C18: which surface class each mnemonic is built as, how many constants that class
-accepts, and which classes override find_duplicate_surfaces.  -> lean/MontePyVerif/Gen/Dedupe.lean
+accepts, which classes override find_duplicate_surfaces, whose find_duplicate_surfaces every built class runs, and
+what the base class's one does.  -> lean/MontePyVerif/Gen/Dedupe.lean
 
 Everything is read from the imported code (surface_builder is *called* on a sample card for every SurfaceType and
-every count of constants 1..12; the override list is read from the class dictionaries)."""
+every count of constants 1..12; the override list is read from the class dictionaries, the provider from the MRO,
+the statements of Surface.find_duplicate_surfaces from its source through ast)."""
+import ast
 import inspect
 import json
+import textwrap
 import warnings
 
 
@@ -18,6 +22,7 @@ def generate(write):
     import montepy.surfaces as pkg
 
     rows = []
+    built = {}
     with warnings.catch_warnings():
         warnings.simplefilter("ignore")
         for st in SurfaceType:
@@ -30,6 +35,7 @@ def generate(write):
                     continue
                 accepted.append(n)
                 cls = type(s).__name__
+                built.setdefault(cls, type(s))
             rows.append((st.value, cls or "?", accepted))
     finders = set()
     seen = set()
@@ -42,6 +48,20 @@ def generate(write):
                 seen.add(c.__name__)
                 if "find_duplicate_surfaces" in c.__dict__:
                     finders.add(c.__name__)
+    # whose find_duplicate_surfaces a built class runs (first class of the MRO that defines it)
+    providers = [
+        (name, next(k.__name__ for k in c.__mro__ if "find_duplicate_surfaces" in k.__dict__))
+        for name, c in built.items()
+    ]
+    # the statements of the base class's finder (docstring dropped), as ast.unparse prints them
+    fn = ast.parse(textwrap.dedent(inspect.getsource(Surface.__dict__["find_duplicate_surfaces"]))).body[0]
+    stmts = fn.body
+    if stmts and isinstance(stmts[0], ast.Expr) and isinstance(getattr(stmts[0], "value", None), ast.Constant) \
+            and isinstance(stmts[0].value.value, str):
+        stmts = stmts[1:]
+    base_body = "\n".join(ast.unparse(x) for x in stmts)
+    if len(base_body) > 600:
+        base_body = base_body[:600] + " ..."
     q = lambda s: json.dumps(s)  # noqa: E731
     body = "namespace MontePyVerif.Gen.Dedupe\n\n"
     body += "/-- per SurfaceType mnemonic: the class surface_builder constructs and the numbers of constants (1..12) it accepts -/\n"
@@ -50,5 +70,9 @@ def generate(write):
     body += "]\n\n"
     body += "/-- subclasses of Surface that override find_duplicate_surfaces (the base class returns []) -/\n"
     body += "def finderClasses : List String := [" + ", ".join(q(c) for c in sorted(finders)) + "]\n"
+    body += "\n/-- for every class surface_builder builds: the class (first of its MRO) whose find_duplicate_surfaces it runs -/\n"
+    body += "def finderProviders : List (String × String) := [" + ", ".join(f"({q(a)}, {q(b)})" for a, b in providers) + "]\n"
+    body += "\n/-- the statements of surface.py:Surface.find_duplicate_surfaces (the base class's; docstring dropped) -/\n"
+    body += "def baseFinderBody : String := " + q(base_body) + "\n"
     body += "\nend MontePyVerif.Gen.Dedupe\n"
     write("Dedupe.lean", body)
